@@ -1640,12 +1640,21 @@ class PathCtx:
     symbolic = True
 
     def eq(self, a, b, scale=1):
+        nf = _nonfinite_pair(a, b)
+        if nf is not None:
+            return SymBool.const(nf[0] == nf[1])          # IEEE: nan equals nothing, inf only itself
         return as_symreal(a) == as_symreal(b)
 
     def le(self, a, b, scale=1):
+        nf = _nonfinite_pair(a, b)
+        if nf is not None:
+            return SymBool.const(nf[0] <= nf[1]) if not (isinstance(nf[0], SymReal) or isinstance(nf[1], SymReal)) else (nf[0] <= nf[1])
         return as_symreal(a) <= as_symreal(b)
 
     def lt(self, a, b, scale=0):
+        nf = _nonfinite_pair(a, b)
+        if nf is not None:
+            return SymBool.const(nf[0] < nf[1]) if not (isinstance(nf[0], SymReal) or isinstance(nf[1], SymReal)) else (nf[0] < nf[1])
         return as_symreal(a) < as_symreal(b)
 
     def all(self, conds):
@@ -1659,6 +1668,25 @@ class PathCtx:
         for c in conds:
             r = r | as_symbool(c)
         return r
+
+
+def _scalar_of(x):
+    if hasattr(x, "ndim") and hasattr(x, "reshape") and not isinstance(x, (numbers.Number, SymReal)):
+        if x.ndim == 0 or getattr(x, "size", 0) == 1:
+            return x.reshape(-1)[0]
+    return x
+
+
+def _nonfinite_pair(a, b):
+    """(a, b) as scalars when one of them is a non-finite float, else None"""
+    a, b = _scalar_of(a), _scalar_of(b)
+    fa = isinstance(a, numbers.Real) and not isinstance(a, (bool, Fraction)) and not math.isfinite(float(a))
+    fb = isinstance(b, numbers.Real) and not isinstance(b, (bool, Fraction)) and not math.isfinite(float(b))
+    if not (fa or fb):
+        return None
+    a = float(a) if fa or not isinstance(a, SymReal) else a
+    b = float(b) if fb or not isinstance(b, SymReal) else b
+    return a, b
 
 
 def _pathctx_array(self, x):
